@@ -63,6 +63,19 @@ TABLE = {
  "C18": [("Proofs/StructBound", n) for n in ["pop_bound_sound", "pop_bound_bounded", "core_bounded_crun", "view_bounded_state_after", "sma_pop", "cyber_pop"]] +
         [("Proofs/StructSched", n) for n in ["sched_pop_bound", "sched_pop_bounded"]],
 }
+EXTRA2 = {
+ "C09": [("Proofs/Stab2SS", n) for n in ["flex_filt_bibo", "flex_filt_fading", "flex_rate_range"]] +
+        [("Proofs/Stab2Flex", n) for n in ["trendflex_dev_bounded", "trendflex_dev_fading", "trendflex_ms_bounded", "trendflex_ms_fading", "trendflex_fading_nondegenerate"]] +
+        [("Proofs/Stab2Reflex", n) for n in ["reflex_dev_bounded", "reflex_ms_fading", "reflex_fading_nondegenerate"]] +
+        [("Proofs/Stab2Lrsi", n) for n in ["lrsi_n1_silent", "lrsi_ladder_fading", "lrsi_fading_nondegenerate"]] +
+        [("Proofs/Stab2Eft", n) for n in ["eft_two_run_halving", "eft_fading", "eft_fading_echo", "eft_fading_sma"]] +
+        [("Proofs/Stab2Chain", n) for n in ["bibo_chain", "bibo_chain_list"]],
+ "C03": [("Proofs/GapA", n) for n in ["pfe_closed_form_full", "pfe_finite_memory_gen", "sma_view_finite_memory", "pfe_sma_finite_memory", "pfe_memory_bound_tight"]],
+ "C07": [("Proofs/GapB", n) for n in ["tanh_range", "gte_ge_clip", "lte_le_clip", "min_le_sma_le_max", "min_le_alma_le_max", "min_le_sma_le_max_run"]],
+ "C08": [("Proofs/GapC", n) for n in ["starved_constant", "starved_constant_run"]],
+ "C05": [("Proofs/GapC", n) for n in ["rsi_rising_whole", "myrsi_rising_whole", "rsi_falling_whole", "myrsi_falling_whole"]],
+ "C13": [("Proofs/GapC", n) for n in ["spec_rvar_is_moments", "wrolling_std_is_sqrt_var"]],
+}
 EXTRA = {
  "C07": [("Proofs/EhlLrsi", "lrsi_range"), ("Proofs/EhlEft", "eft_range_strong"), ("Proofs/EhlFlex", "trendflex_range"), ("Proofs/EhlFlex", "reflex_range"),
          ("Proofs/EhlPfe", "pfe_range_refuted"), ("Proofs/EhlPfe", "pfe_const_value"), ("Proofs/EhlPfe", "pfe_abs_le_one_iff"),
@@ -108,6 +121,10 @@ def header_of(path, name):
     if not m:
         raise SystemExit("statement of %s not found in %s" % (name, path))
     return " ".join(m.group(1).split())
+
+def _merge_extra():
+    for k, v in EXTRA2.items():
+        EXTRA[k] = EXTRA.get(k, []) + v
 
 def imports_for(pid, items):
     mods = []
@@ -185,15 +202,24 @@ def main_once():
         print(pid, len(seen), "theorems")
 
 def main():
+    _merge_extra()
+    _main()
+
+def _main():
     """generate; compile each property file; on an error inside a theorem raise that theorem's level; repeat"""
     import subprocess
     load_levels()
     for it in range(60):
         main_once()
         changed = False
-        for pid in sorted(set(TABLE) | set(EXTRA)):
+        from concurrent.futures import ThreadPoolExecutor
+        pids = sorted(set(TABLE) | set(EXTRA))
+        def comp(pid):
             fn = os.path.join(COQ, "Properties", pid + ".v")
-            r = subprocess.run("coqc -noglob -Q %s SF %s" % (COQ, fn), shell=True, capture_output=True, text=True)
+            return pid, fn, subprocess.run("coqc -noglob -Q %s SF %s" % (COQ, fn), shell=True, capture_output=True, text=True)
+        with ThreadPoolExecutor(16) as ex:
+            results = list(ex.map(comp, pids))
+        for pid, fn, r in results:
             if r.returncode == 0:
                 continue
             m = re.search(r'line (\d+), characters', r.stdout + r.stderr)
